@@ -24,7 +24,8 @@ func vIsList(got []*SDTargets, want ...uint64) bool { return vSameList(got, want
 // VDiscRun (C17, bounded thread model): the real TargetsDiscovery.Run loop consumes discovery
 // updates from its channel while the driver reloads the configuration and a reader goroutine
 // takes snapshots, under every schedule (switches at synchronisation operations, preemption
-// bound P). scenario 0: the reload keeps j1 and removes j2; 1: the reload keeps both.
+// bound P). scenario 0: the reload keeps j1 and removes j2; 1: the reload keeps both; 2: two rounds
+// for j1 are delivered ([3], then [4]) around a reload that keeps both jobs.
 func VDiscRun(scenario, P int) {
 	zzv.Threads(P)
 	m := New(vLogger())
@@ -42,11 +43,17 @@ func VDiscRun(scenario, P int) {
 	go func() {
 		for i := 0; i < 2; i++ {
 			a := m.ActiveTargets()
-			zzv.AssertSym("C17.run.reader.kept.never.missing", vIsList(a["j1"], 1) || vIsList(a["j1"], 3))
+			zzv.AssertSym("C17.run.reader.kept.never.missing", vIsList(a["j1"], 1) || vIsList(a["j1"], 3) || (scenario == 2 && vIsList(a["j1"], 4)))
 			j2, has2 := a["j2"]
 			zzv.AssertSym("C17.run.reader.j2", !has2 || vIsList(j2, 2))
 			byHash := m.ActiveTargetsByHash()
-			zzv.AssertSym("C17.run.reader.byhash", (byHash[1] != nil) != (byHash[3] != nil))
+			n134 := 0
+			for _, h := range []uint64{1, 3, 4} {
+				if byHash[h] != nil {
+					n134++
+				}
+			}
+			zzv.AssertSym("C17.run.reader.byhash", n134 == 1)
 		}
 		readerDone = true
 	}()
@@ -57,10 +64,15 @@ func VDiscRun(scenario, P int) {
 	} else {
 		_ = m.ApplyConfig(vConfig("j1", "j2"))
 	}
+	last, rounds := uint64(3), 1
+	if scenario == 2 {
+		sd <- map[string][]*targetgroup.Group{"j1": vOneGroup("j1", 4)}
+		last, rounds = 4, 2
+	}
 	zzv.Quiesce()
 	a := m.ActiveTargets()
 	d := m.DropTargets()
-	zzv.AssertSym("C17.run.latest.update.wins", vIsList(a["j1"], 3))
+	zzv.AssertSym("C17.run.latest.update.wins", vIsList(a["j1"], last))
 	_, has2 := a["j2"]
 	_, hasD2 := d["j2"]
 	if scenario == 0 {
@@ -68,10 +80,14 @@ func VDiscRun(scenario, P int) {
 	} else {
 		zzv.AssertSym("C17.run.kept.job.untouched", vIsList(a["j2"], 2) && hasD2)
 	}
-	zzv.AssertSym("C17.run.notified", len(m.activeTargetsChan) == 1 && readerDone)
-	if len(m.activeTargetsChan) == 1 {
+	zzv.AssertSym("C17.run.notified", len(m.activeTargetsChan) == rounds && readerDone)
+	if len(m.activeTargetsChan) == rounds {
 		n := <-m.activeTargetsChan
 		zzv.AssertSym("C17.run.notified.contents", len(n) == 1 && vIsList(n["j1"], 3))
+		if rounds == 2 {
+			n = <-m.activeTargetsChan
+			zzv.AssertSym("C17.run.notified.contents", len(n) == 1 && vIsList(n["j1"], 4))
+		}
 	}
 	cancel()
 	zzv.Quiesce()
